@@ -29,6 +29,11 @@ CHECKS = {
          "On the complete parameter domain (degree bits <= 20, rate <= 5, cap <= 8, 382 strategies: all Fixed schedules over {1..4}^<=4, ConstantArityBits, MinSize) the arity schedules never fold below the cap or the degree and leave a final polynomial of the advertised length (MinSize compared with a DP optimum). For every enumerated oracle shape (1-3 oracles x 1-3 polynomials, blinding per oracle), degree <= 2^5, opening structure, parameter tuple and coefficient family, honest plain and batch FRI opening proofs are accepted. For every honest proof and every single deviation (false opening with consistent transcript, adversarial first layer, over-degree commitment, insufficient grinding via the pow-witness knob, each proof element +1, each array drop/empty/duplicate, initial-cap edits; the same on BatchFriOracle with 2-4 degrees) verify_fri_proof / verify_batch_fri_proof return exactly the verdict of the naive reference verifier, and none of the deviations is accepted (probabilistic ones asserted only above q*rate >= 40 or q*lde_bits >= 40).",
          "trusted: Poseidon hash_or_noop / two_to_one (C13), Goldilocks generator constants (re-checked), serde images of FriProof, library FFT / Merkle builders on the prover/driver side only; toy sizes (d <= 5, <= 28 queries), single deviations",
          "DESIGN.md §4 C05"),
+ "C12": ("model_checking",
+         "bounded exhaustive enumeration of trees (leaf counts x cap heights x widths x hashers x leaf families) against a level-by-level reference tree with the complete single-deviation negative set per position; stateless choice-point DFS over ALL fork-join orders of the tree construction (join chooser hook)",
+         "For Poseidon and Keccak, MerkleTree and BatchMerkleTree (every strictly decreasing height profile of <= 3 layers) produce exactly the cap, digest layout and sibling paths of pairwise level-by-level hashing, under EVERY fork-join order of fill_subtree for trees up to 8 (thorough 16) leaves and every order with <= 2 right-first decisions for larger ones (each schedule executed twice; divergence is a machinery error). Every honest opening verifies; every opening with another leaf of the same width, another or out-of-range index, any edited sibling element, any edited element of the path's cap entry, or a truncated/extended sibling list is not accepted; equal leaves and unrelated cap entries cause no false rejection. Compressed multi-proofs decompress to exactly the original proofs for ALL index tuples of length <= 3 (4) incl. repetitions, each verifies, and no compressed sibling is unused.",
+         "trusted: Hasher::hash_or_noop / two_to_one (C13; the hash_or_noop threshold is pinned separately), the verif_sched chooser hook, harness reference tree in c12.rs; real-thread data races are outside any cooperative explorer",
+         "DESIGN.md §4 C12"),
  "C13": ("model_checking",
          "explicit-state exploration of the challenger state machine (all observe/get sequences up to a depth) against a reference duplex-sponge model, step-by-step conformance on the real Challenger / RecursiveChallenger; bounded exhaustive state enumeration for the permutation layers against textbook Poseidon",
          "Every optimised Poseidon layer and the full permutation on 3^12 uniform-extreme states, all <=2-lane deviations over the representation alphabet from three base states and uniform/single-lane states, against a textbook round-by-round Poseidon on u128 arithmetic (anchored on the published test vectors); all message lengths 0..=40 x output counts for the sponge/compression functions; the challenger explored as a transition system: every sequence in {observe, get}^<=d (Poseidon and Keccak permutations) plus macro-operations, each step compared with a list-based duplex model, and every sequence up to a smaller depth replayed on the in-circuit RecursiveChallenger. Run in the checked profile.",
